@@ -192,6 +192,7 @@ pub struct Stats {
     pub unparks: u64,
     pub timed_wakes: u64,
     pub draws: u64,
+    pub weak_cas_failures: u64,
 }
 
 pub struct Exec {
@@ -846,6 +847,20 @@ pub fn draw(bound: u64) -> u64 {
 
 pub fn steps() -> u64 {
     ex().map(|e| e.steps).unwrap_or(0)
+}
+
+/// F13: a weak compare-exchange fails spuriously in about 1 of 16 calls (recorded draw)
+pub fn weak_cas_fails() -> bool {
+    match ex() {
+        Some(e) if e.abort.is_none() => {
+            let hit = e.draw(16) == 0;
+            if hit {
+                e.stats.weak_cas_failures += 1;
+            }
+            hit
+        }
+        _ => false,
+    }
 }
 
 pub fn own_steps() -> u64 {
